@@ -41,7 +41,8 @@ def run(chk, repo: Repo):
     from .common import best_of as _bo
     _bo(chk, (1, 2), lambda t, lvl: _r5(t, repo, ci, lvl))          # as written; with the private helpers of the converters inlined
     chk.rule("C19-R6", "the stored chain is read-only for statistics and diagnostics: no method writes into self.samples in place, and a library function that is "
-                       "handed (a view of) the chain does not write into that argument (followed through calls between module-level functions)", floor=20)
+                       "handed (a view of) the chain does not write into that argument (followed through calls between module-level functions); a statistic that "
+                       "takes an argument (percent) passes it on to every statistic it is computed from", floor=20)
     _r6(chk, repo, ci)
 
 
